@@ -189,11 +189,19 @@ def check(entry, recompute):
             except BaseException as e:
                 problems.append(f"E deserialize_json({how} {'.'.join(path)}): raised {type(e).__name__}")
     if recompute:
-        built = stage("D constructor", lambda: construct(spec))
-        if built is None:
-            if not any(p.startswith("D constructor") for p in problems):
-                notes.append("D the Python constructor returned an error where Rust returned a value")
+        is_cell = ty in ("Cell", "MagneticCell<Collinear>", "MagneticCell<NonCollinear>")
+        if is_cell:
+            built = stage("D constructor", lambda: construct(spec))
         else:
+            # a dataset search that fails or panics in the Python build is C08/C20's business, not the representation's
+            try:
+                built = construct(spec)
+                if built is None:
+                    notes.append("D the Python constructor returned an error where Rust returned a value")
+            except BaseException as e:
+                built = None
+                notes.append(f"D the Python constructor raised {type(e).__name__} where Rust returned a value")
+        if built is not None:
             got = json.loads(built.serialize_json())
             if ty in ("Cell", "MagneticCell<Collinear>", "MagneticCell<NonCollinear>"):
                 for x in diff(got, ref):
